@@ -16,11 +16,21 @@
     discharge `AtomNegOK` for the operator tables of each value type.
   Hypothesis kept explicit: ordering operators applied to *text* values answer false in the code and so
   do their negations — they are outside `AtomNegOK` (documented behaviour "not applicable"), as are
-  comparisons involving NaN.  Operator precedence and bracket handling of the parser (AND binds
-  tighter than OR, round/curly brackets) are decided by the parser correspondence and the set-algebra
-  oracle, not by a theorem.
+  comparisons involving NaN.
+  * `condition_parse_correct` (Lemmas/ParseCond, mutual induction over derivations against the well-founded
+    recursive-descent model) — for EVERY derivation of
+        X ::= Y (or Y)*     Y ::= Z (and Z)*     Z ::= not* ( atom | "(" X ")" )
+    parsing its token sequence yields the tree the derivation denotes and leaves exactly the tokens that
+    follow: AND binds tighter than OR, brackets override, a run of prefix NOTs negates by parity (pushed
+    through the bracket by De Morgan).  `comparison_is_atom` shows that `column op literal` is an atom;
+    `and_binds_tighter`, `brackets_override_precedence`, `not_bracket_is_de_morgan` are instances on
+    comparisons (and witnesses that the hypotheses can be met).
+  Curly brackets and the infix forms `not like` / `not between` inside formulas are covered by the
+  correspondence and the set-algebra oracle only.
 -/
 import Fsel.Model.Eval
+import Fsel.Lemmas.ParseCond
+import Fsel.Props.C15
 
 namespace Fsel.C03
 open Fsel
@@ -260,5 +270,119 @@ theorem text_ordering_counterexample (today : Int) (fv v : Variant) (hty : fv.ty
     (compareValues today [] fv Op.Gt.negate v).map (·.1) = .ok (.val false) := by
   unfold compareValues
   simp [hty, Op.negate, Except.map]
+
+/-! ### the condition parser -/
+
+open ParseL ParseC in
+/-- **the condition parser implements the Boolean grammar** -/
+theorem condition_parse_correct (bs : Bool) (x : X) (h : x.WF bs) (rest : List Lexem) (hrest : StopOr rest) :
+    (parseExpr bs (x.toks ++ rest)).res = .ok x.tree ∧ (parseExpr bs (x.toks ++ rest)).rest = rest :=
+  parse_X bs x h rest _ hrest rfl
+
+open ParseL ParseC in
+/-- `column op literal` is an atomic condition (any number of NOTs in front negate the operator by parity) -/
+theorem comparison_is_atom (c o l : Str) (f : Field) (op : Op)
+    (hf : Field.ofStr? c = some f) (hfb : f.isBoolean = false) (ho : Op.ofStr? o = some op) (hnb : (lowerStr o == ofS "between") = false)
+    (hl1 : Field.ofStr? l = none) (hl2 : Function.ofStr? l = none) :
+    AtomCond true [.raw c, .op o, .raw l] (.cmp (.field false f) op (.val false l)) := by
+  intro k r hr
+  -- operands: the column and the literal are arithmetic-level atoms
+  have hL := C15.arith_parse_correct true (.mk (.mk (.atom [.raw c] (.field false f)) .nil) .nil)
+    (by simp only [E.WF, T.WF, F.WF, TTail.WF, ETail.WF]; exact ⟨⟨C15.atom_column true c f hf, trivial⟩, trivial⟩)
+    (.op o :: .raw l :: r) trivial
+  have hR := C15.arith_parse_correct true (.mk (.mk (.atom [.raw l] (.val false l)) .nil) .nil)
+    (by simp only [E.WF, T.WF, F.WF, TTail.WF, ETail.WF]; exact ⟨⟨C15.atom_literal true l hl1 hl2, trivial⟩, trivial⟩)
+    r (stopCond_not_arith hr)
+  simp only [E.toks, T.toks, F.toks, TTail.toks, ETail.toks, E.tree, T.tree, F.tree, TTail.fold, ETail.fold,
+    List.append_nil, List.singleton_append] at hL hR
+  unfold parseCond
+  have hs := skipNots_nots k ([Lexem.raw c, .op o, .raw l] ++ r) (by simp)
+  cases hsk : skipNots (nots k ++ ([Lexem.raw c, .op o, .raw l] ++ r)) with
+  | mk b t1 =>
+    rw [hsk] at hs
+    obtain ⟨t1v, t1p⟩ := t1
+    simp only at hs
+    obtain ⟨hb, ht⟩ := hs
+    subst hb; subst ht
+    simp only [List.cons_append, List.nil_append]
+    cases hp : parseAddSub true (.raw c :: .op o :: .raw l :: r) with
+    | mk res rst le pr =>
+      rw [hp] at hL
+      obtain ⟨h1, h2⟩ := hL
+      simp only at h1 h2
+      subst h1; subst h2
+      simp only [infixNot, Rest.refl, hnb, Bool.false_eq_true, if_false]
+      cases hq : parseAddSub true (.raw l :: r) with
+      | mk res2 rst2 le2 pr2 =>
+        rw [hq] at hR
+        obtain ⟨g1, g2⟩ := hR
+        simp only at g1 g2
+        subst g1; subst g2
+        have hbs : boolShorthand true (.cmp (.field false f) op (.val false l)) = .cmp (.field false f) op (.val false l) := rfl
+        cases hpar : parity k <;> simp [Op.fromWithNot, ho, boolShorthand, Expr.negate]
+
+theorem parseExpr_res_congr (bs : Bool) {ts ts' : List Lexem} (h : ts = ts') : (parseExpr bs ts).res = (parseExpr bs ts').res := by
+  subst h; rfl
+
+section instances
+open ParseL ParseC
+variable (bs : Bool) (a b c : List Lexem) (x y z : Expr)
+
+/-- `a or b and c` -/
+def orAnd : X := .mk (.mk (.atom 0 a x) .nil) (.cons (.mk (.atom 0 b y) (.cons (.atom 0 c z) .nil)) .nil)
+/-- `( a or b ) and c` -/
+def bracketOrAnd : X := .mk (.mk (.paren 0 (.mk (.mk (.atom 0 a x) .nil) (.cons (.mk (.atom 0 b y) .nil) .nil))) (.cons (.atom 0 c z) .nil)) .nil
+/-- `not ( a and b )` -/
+def notBracketAnd : X := .mk (.mk (.paren 1 (.mk (.mk (.atom 0 a x) (.cons (.atom 0 b y) .nil)) .nil)) .nil) .nil
+
+theorem orAnd_toks : (orAnd a b c x y z).toks = a ++ .or_ :: (b ++ .and_ :: c) := by
+  simp [orAnd, X.toks, Y.toks, Z.toks, XTail.toks, YTail.toks, nots]
+theorem bracketOrAnd_toks : (bracketOrAnd a b c x y z).toks = .open_ :: (a ++ .or_ :: b ++ [.close]) ++ .and_ :: c := by
+  simp [bracketOrAnd, X.toks, Y.toks, Z.toks, XTail.toks, YTail.toks, nots]
+theorem notBracketAnd_toks : (notBracketAnd a b x y).toks = .not_ :: .open_ :: (a ++ .and_ :: b ++ [.close]) := by
+  simp [notBracketAnd, X.toks, Y.toks, Z.toks, XTail.toks, YTail.toks, nots]
+
+/-- AND binds tighter than OR: `a or b and c` is `a or (b and c)` -/
+theorem and_binds_tighter (ha : AtomCond bs a x) (hb : AtomCond bs b y) (hc : AtomCond bs c z)
+    (rest : List Lexem) (hrest : StopOr rest) :
+    (parseExpr bs ((orAnd a b c x y z).toks ++ rest)).res = .ok (.logic x .Or (.logic y .And z)) := by
+  have h := condition_parse_correct bs (orAnd a b c x y z)
+    (by simp only [orAnd, X.WF, Y.WF, Z.WF, XTail.WF, YTail.WF]; exact ⟨⟨ha, trivial⟩, ⟨hb, hc, trivial⟩, trivial⟩) rest hrest
+  simpa [orAnd, X.tree, Y.tree, Z.tree, XTail.accum, YTail.accum, parity] using h.1
+
+/-- brackets override: `( a or b ) and c` keeps the disjunction together -/
+theorem brackets_override_precedence (ha : AtomCond bs a x) (hb : AtomCond bs b y) (hc : AtomCond bs c z)
+    (hbool : boolShorthand bs (.logic x .Or y) = .logic x .Or y) (rest : List Lexem) (hrest : StopOr rest) :
+    (parseExpr bs ((bracketOrAnd a b c x y z).toks ++ rest)).res = .ok (.logic (.logic x .Or y) .And z) := by
+  have h := condition_parse_correct bs (bracketOrAnd a b c x y z)
+    (by simp only [bracketOrAnd, X.WF, Y.WF, Z.WF, XTail.WF, YTail.WF, X.tree, Y.tree, Z.tree, XTail.accum, YTail.accum, parity]
+        exact ⟨⟨⟨⟨⟨ha, trivial⟩, ⟨hb, trivial⟩, trivial⟩, by simpa using hbool⟩, hc, trivial⟩, trivial⟩) rest hrest
+  simpa [bracketOrAnd, X.tree, Y.tree, Z.tree, XTail.accum, YTail.accum, parity] using h.1
+
+/-- NOT in front of a bracket is pushed through it by De Morgan: `not ( a and b )` is `(not a) or (not b)` -/
+theorem not_bracket_is_de_morgan (ha : AtomCond bs a x) (hb : AtomCond bs b y)
+    (hbool : boolShorthand bs (.logic x .And y) = .logic x .And y) (rest : List Lexem) (hrest : StopOr rest) :
+    (parseExpr bs ((notBracketAnd a b x y).toks ++ rest)).res = .ok (.logic x.negate .Or y.negate) := by
+  have h := condition_parse_correct bs (notBracketAnd a b x y)
+    (by simp only [notBracketAnd, X.WF, Y.WF, Z.WF, XTail.WF, YTail.WF, X.tree, Y.tree, Z.tree, XTail.accum, YTail.accum, parity]
+        exact ⟨⟨⟨⟨⟨ha, hb, trivial⟩, trivial⟩, by simpa using hbool⟩, trivial⟩, trivial⟩) rest hrest
+  simpa [notBracketAnd, X.tree, Y.tree, Z.tree, XTail.accum, YTail.accum, parity, Expr.negate, LogicalOp.dual] using h.1
+
+end instances
+
+/-- a concrete formula on real tokens: `size > 1 or size < 5 and name = x` -/
+example : (parseExpr true [.raw (ofS "size"), .op ['>'], .raw ['1'], .or_, .raw (ofS "size"), .op ['<'], .raw ['5'], .and_,
+      .raw (ofS "name"), .op ['='], .raw ['x']]).res =
+    .ok (.logic (.cmp (.field false .Size) .Gt (.val false ['1'])) .Or
+          (.logic (.cmp (.field false .Size) .Lt (.val false ['5'])) .And (.cmp (.field false .Name) .Eq (.val false ['x'])))) := by
+  have h := and_binds_tighter true _ _ _ _ _ _
+    (comparison_is_atom (ofS "size") ['>'] ['1'] .Size .Gt (by decide) (by decide) (by decide) (by decide) (by decide) (by decide))
+    (comparison_is_atom (ofS "size") ['<'] ['5'] .Size .Lt (by decide) (by decide) (by decide) (by decide) (by decide) (by decide))
+    (comparison_is_atom (ofS "name") ['='] ['x'] .Name .Eq (by decide) (by decide) (by decide) (by decide) (by decide) (by decide))
+    [] trivial
+  rw [parseExpr_res_congr true (ts' := (orAnd [Lexem.raw (ofS "size"), .op ['>'], .raw ['1']] [Lexem.raw (ofS "size"), .op ['<'], .raw ['5']]
+      [Lexem.raw (ofS "name"), .op ['='], .raw ['x']] (.cmp (.field false .Size) .Gt (.val false ['1']))
+      (.cmp (.field false .Size) .Lt (.val false ['5'])) (.cmp (.field false .Name) .Eq (.val false ['x']))).toks ++ []) (by simp [orAnd_toks])]
+  exact h
 
 end Fsel.C03
